@@ -5,6 +5,7 @@ from common import *
 from props.c10 import _addr
 
 PID = "C14"
+TIES = ['add_magic_prefix', 'encode_varint']   # source-tie files coq/Properties/Tie_<f>.v that belong to this property
 THEOREMS = ["C14_digest", "C14_recovery", "C14_sign_total", "C14_sign_verify", "C14_sound", "C14_recover_pubkey"]
 TECHNIQUE = "Coq proof (digest layout; ECDSA recovery identity and header search over the abstract curve; verification soundness by construction) + extracted-model correspondence and libsecp256k1 recovery as the acceptance oracle"
 RULE = ("keys random and edge (1, n-1), messages of 0..70000 characters incl. non-ASCII (2-, 3- and 4-byte UTF-8) and the 252/253 byte boundary with "
@@ -236,3 +237,8 @@ def oracle(d):
     from Crypto.Hash import RIPEMD160
     a = _addr("p2pkh", d["net"], RIPEMD160.new(hashlib.sha256(pub.format(h >= 31)).digest()).digest())
     return "1" if a == addr else "0"
+
+
+# source tie (DESIGN 13.8)
+from common import with_ties
+LEVEL_TEXT, LEVEL_NOTE, TECHNIQUE = with_ties(TIES, LEVEL_TEXT, LEVEL_NOTE, TECHNIQUE)
